@@ -51,16 +51,17 @@ Proof.
   assert (Hbase : forall w, wait_cats w = [] -> forall wr nr0, (wr = WNone \/ wr = WMsg) -> nr0 = None ->
             match wr, w with WNone, CWNone | WMsg, CWMsg => True | _, _ => False end ->
             dec_sim phi uu (mkDec false operand wr (render_result result) [] [] wild0 nr0)
-                    (mkSwitch operand result w [] [] (mkCCat (fresh n) s_Other (mkCExit (fresh (S n)) None)))).
+                    (mkSwitch operand result w [] [] (mkCCat (fresh n) s_Other (mkCExit (fresh (S n)) None)) [])).
   { intros w Hw wr nr0 Hwr -> Hm. constructor; cbn.
     - reflexivity.
     - reflexivity.
     - reflexivity.
     - unfold wait_sim. cbn. destruct Hwr as [-> | ->], w; try contradiction; reflexivity.
     - constructor.
-    - split; cbn; [exact gname_other|exact I].
+    - split; cbn [fst snd wild0 rd_default cc_name sw_default]; [apply name_sim_wild; intros _; exact gname_other|exact I].
     - constructor.
-    - unfold sw_all_cats. cbn. rewrite Hw. cbn. constructor; [intros []|constructor]. }
+    - unfold sw_all_cats. cbn. rewrite Hw. cbn. constructor; [intros []|constructor].
+    - constructor; cbn; [constructor|intros u []|]. intros _. unfold sw_all_cats. cbn. rewrite Hw. cbn. constructor; [intros []|constructor]. }
   destruct timeout as [[|p]|].
   - intros H. injection H as <- <-. apply Hbase; auto. exact I.
   - destruct (new_cat fresh (S (S n)) s_NoResponse None) as [[nr n2]|e] eqn:E2; [|discriminate].
@@ -71,10 +72,13 @@ Proof.
     + reflexivity.
     + unfold wait_sim. cbn. split; [reflexivity|]. exists (CFixed s_NoResponse, DNone). split; [reflexivity|]. split; cbn; auto.
     + constructor.
-    + split; cbn; [exact gname_other|exact I].
+    + split; cbn [fst snd wild0 rd_default cc_name sw_default]; [apply name_sim_wild; intros _; exact gname_other|exact I].
     + constructor.
     + unfold sw_all_cats. cbn. constructor.
       * intros [H|[]]. apply fresh_inj in H. lia.
+      * constructor; [intros []|constructor].
+    + constructor; cbn; [constructor|intros u []|]. intros _. unfold sw_all_cats. cbn. constructor.
+      * intros [H|[]]. vm_compute in H. discriminate.
       * constructor; [intros []|constructor].
   - intros H. injection H as <- <-. apply Hbase; auto. exact I.
 Qed.
@@ -127,48 +131,39 @@ Proof.
     constructor; cbn; [reflexivity|reflexivity|constructor|constructor].
   - (* start_new_flow *)
     destruct Ha as [-> (p & ->)]. unfold new_enter_node. destruct (node_uuid fresh given n) as [[u g] n1]. destruct name as [|c0 nm]; [discriminate|].
-    cbn. intros H. injection H as <- <-. split; [|exact I].
-    eapply NS_router with (cls := SEnter); cbn; eauto.
-    + constructor; cbn.
-      * reflexivity.
-      * reflexivity.
-      * reflexivity.
-      * reflexivity.
-      * constructor; [split; cbn; auto|constructor].
-      * split; cbn; auto.
-      * constructor; [repeat split; reflexivity|constructor; [repeat split; reflexivity|constructor]].
-      * unfold sw_all_cats. cbn. constructor; [intros [H|[]]; apply fresh_inj in H; lia|constructor; [intros []|constructor]].
-    + eexists. reflexivity.
+    unfold sw_add_choice. destruct explicit_names_claimed eqn:Eflag; cbn; intros H; injection H as <- <-; (split; [|exact I]);
+      (eapply NS_router with (cls := SEnter); cbn; eauto; [|eexists; reflexivity]);
+      (constructor; cbn;
+       [reflexivity|reflexivity|reflexivity|reflexivity
+       |constructor; [split; cbn; auto|constructor]
+       |split; cbn; auto
+       |constructor; [repeat split; reflexivity|constructor; [repeat split; reflexivity|constructor]]
+       |unfold sw_all_cats; cbn; constructor; [intros [H|[]]; apply fresh_inj in H; lia|constructor; [intros []|constructor]]
+       |constructor; cbn; [constructor; [reflexivity|constructor]|intros x []|intros _; unfold sw_all_cats; cbn; constructor; [intros [H|[]]; discriminate H|constructor; [intros []|constructor]]]]).
   - (* call_webhook *)
     destruct Ha as [-> (p & ->)]. unfold new_outcome_node. destruct (node_uuid fresh given n) as [[u g] n1]. destruct sv as [|c0 sv']; [discriminate|].
     cbn [kind_dec0]. destruct (field_key (c0 :: sv')) as [key|e]; [|discriminate].
-    cbn. intros H. injection H as <- <-. split; [|exact I].
-    eapply NS_router with (cls := SOutcome); cbn; eauto.
-    + constructor; cbn.
-      * reflexivity.
-      * reflexivity.
-      * reflexivity.
-      * reflexivity.
-      * constructor; [split; cbn; auto|constructor].
-      * split; cbn; auto.
-      * constructor; [repeat split; reflexivity|constructor].
-      * unfold sw_all_cats. cbn. constructor; [intros [H|[]]; apply fresh_inj in H; lia|constructor; [intros []|constructor]].
-    + eexists. reflexivity.
+    unfold sw_add_choice. destruct explicit_names_claimed eqn:Eflag; cbn; intros H; injection H as <- <-; (split; [|exact I]);
+      (eapply NS_router with (cls := SOutcome); cbn; eauto; [|eexists; reflexivity]);
+      (constructor; cbn;
+       [reflexivity|reflexivity|reflexivity|reflexivity
+       |constructor; [split; cbn; auto|constructor]
+       |split; cbn; auto
+       |constructor; [repeat split; reflexivity|constructor]
+       |unfold sw_all_cats; cbn; constructor; [intros [H|[]]; apply fresh_inj in H; lia|constructor; [intros []|constructor]]
+       |constructor; cbn; [constructor; [reflexivity|constructor]|intros x []|intros _; unfold sw_all_cats; cbn; constructor; [intros [H|[]]; discriminate H|constructor; [intros []|constructor]]]]).
   - (* transfer_airtime *)
     destruct Ha as [-> (p & ->)]. unfold new_outcome_node. destruct (node_uuid fresh given n) as [[u g] n1]. destruct sv as [|c0 sv']; [discriminate|].
     cbn [kind_dec0]. destruct (field_key (c0 :: sv')) as [key|e]; [|discriminate].
-    cbn. intros H. injection H as <- <-. split; [|exact I].
-    eapply NS_router with (cls := SOutcome); cbn; eauto.
-    + constructor; cbn.
-      * reflexivity.
-      * reflexivity.
-      * reflexivity.
-      * reflexivity.
-      * constructor; [split; cbn; auto|constructor].
-      * split; cbn; auto.
-      * constructor; [repeat split; reflexivity|constructor].
-      * unfold sw_all_cats. cbn. constructor; [intros [H|[]]; apply fresh_inj in H; lia|constructor; [intros []|constructor]].
-    + eexists. reflexivity.
+    unfold sw_add_choice. destruct explicit_names_claimed eqn:Eflag; cbn; intros H; injection H as <- <-; (split; [|exact I]);
+      (eapply NS_router with (cls := SOutcome); cbn; eauto; [|eexists; reflexivity]);
+      (constructor; cbn;
+       [reflexivity|reflexivity|reflexivity|reflexivity
+       |constructor; [split; cbn; auto|constructor]
+       |split; cbn; auto
+       |constructor; [repeat split; reflexivity|constructor]
+       |unfold sw_all_cats; cbn; constructor; [intros [H|[]]; apply fresh_inj in H; lia|constructor; [intros []|constructor]]
+       |constructor; cbn; [constructor; [reflexivity|constructor]|intros x []|intros _; unfold sw_all_cats; cbn; constructor; [intros [H|[]]; discriminate H|constructor; [intros []|constructor]]]]).
 Qed.
 
 (* ---------------------------------------------------------------- edges of a row *)
